@@ -321,6 +321,16 @@ def _check_output_bit(rep: Report, L: Any, nid: int, nm: str) -> None:
                 except lx.Unrecognised:
                     iv = None
                 ok = _iv_eq(iv, M.OUTPUT_BIT_ONE, M.OUTPUT_BIT_ONE)
+                if not ok:
+                    # not an `f == 2w+1` comparison (e.g. a parity test): inside the output range {2w, 2w+1} - the OUTPUT guard is
+                    # judged separately - the expression is folded for both addresses at every width
+                    binding = {k: v for k, v in L.env.table.items() if isinstance(v, tuple)}
+                    ir2 = lx.ir_subst(ir, binding)
+                    try:
+                        ok = all(bool(lx.eval_ir(ir2, {var: 2 * wv + b_, 'w': wv})) == bool(b_) for wv in M.WIDTHS for b_ in (0, 1))
+                        found += ' (folded at f = 2w, 2w+1 for every width)'
+                    except lx.Unrecognised:
+                        ok = False
     rep.check(ok, 'C01.GUARDS', f'{nm}:OUTPUT_BIT', f'emitted bit = {found}', _site(L, nid),
               expected='bit is 1 iff f == 2w+1')
 
@@ -513,48 +523,110 @@ def rule_unaligned(rep: Report, repo: Repo, cu: CUnit) -> None:
                 cdefs[n['name']] = init[-1]
     site_c = cu.site(cu.func('mem_get_word_unaligned'), 'mem_get_word_unaligned')
     site_p = f'{READER_REL}:{gw.lineno} Reader.get_word'
+    from ..cfacts import alias_binding
+    c_alias = alias_binding(cu, 'mem_get_word_unaligned')           # `width = (uint64_t)m->w` reads as m->w
     for var, ref in (('word_address', None), ('bit_offset', None)):
         if var not in pdefs or var not in cdefs:
             raise AnalysisError(f'C01.UNALIGNED: decomposition variable {var} missing')
-        p = lx.canon(_strip_mask(py_ir(pdefs[var]), penv, MASK), penv)
-        c = lx.canon(c_ir(cdefs[var], cu.src_of), cenv)
-        rep.check(p == c, 'C01.UNALIGNED', f'decompose:{var}', f'python {p} ; C {c}', site_c, expected='equal')
-    # aligned fast path first + last-word fault with the bit address
-    p_first = gw.body[1] if isinstance(gw.body[0], ast.Expr) else gw.body[0]
-    stmts = [s for s in gw.body if not (isinstance(s, ast.Expr) and isinstance(s.value, ast.Constant))]
-    ok_fast = len(stmts) >= 2 and isinstance(stmts[1], ast.If) and norm(stmts[1].test) in ('bit_offset == 0', '0 == bit_offset') \
-        and isinstance(stmts[1].body[0], ast.Return)
-    rep.check(ok_fast, 'C01.UNALIGNED', 'python:aligned-first', 'aligned words return before the two-word path', site_p)
-    ok_last = False
-    for s in stmts:
-        if isinstance(s, ast.If) and 'word_address' in norm(s.test) and isinstance(s.body[0], ast.Raise):
-            exc = s.body[0].exc
-            if isinstance(exc, ast.Call) and dotted(exc.func) == 'FlipJumpRuntimeMemoryException' \
-                    and len(exc.args) == 2 and norm(exc.args[1]) == 'bit_address':
-                lhs = lx.canon(py_ir(s.test), penv)
-                ok_last = lhs in ('(word_address == (1)<<(w) - 1)', '((1)<<(w) - 1 == word_address)')
+        # both decompositions folded on a grid of widths and bit addresses (the python side additionally wraps the word address
+        # to w bits; the C side holds 64-bit addresses, for which the grid stays below 2^w words)
+        p_ir = py_ir(pdefs[var])
+        c_ir_ = lx.ir_subst(c_ir(cdefs[var], cu.src_of), c_alias)
+        bad_ = []
+        for wv, lg in M.WIDTHS.items():
+            for addr in (0, 1, wv - 1, wv, 5 * wv + 3, ((1 << min(wv, 20)) - 1) * wv + wv - 1):
+                try:
+                    pv = lx.eval_ir(p_ir, {'bit_address': addr, 'self.memory_width': wv})
+                    cv = lx.eval_ir(c_ir_, {'bit_address': addr, 'm.w': wv, 'm.ww': lg})
+                except lx.Unrecognised as ex:
+                    bad_.append(str(ex))
+                    break
+                want_v = (addr >> lg) if var == 'word_address' else (addr & (wv - 1))
+                if not (pv == cv == want_v):
+                    bad_.append(f'w={wv} address={addr}: python {pv}, C {cv}, reference {want_v}')
+        rep.check(not bad_, 'C01.UNALIGNED', f'decompose:{var}', bad_[0] if bad_ else
+                  f'python `{norm(pdefs[var])}` and C `{cu.src_of(cdefs[var])}` agree with the reference on {6 * len(M.WIDTHS)} grid cases',
+                  site_c, expected='equal')
+    # the python side by forward substitution over every path of get_word (guard clauses / nesting / operand order do not matter):
+    #   bit_offset == 0                          -> the one aligned read
+    #   bit_offset != 0, word == last word       -> the memory exception carrying the bit address
+    #   bit_offset != 0, word != last word       -> two reads (word, word + 1) combined
+    from ..pysubst import method_outcomes
+    from ..pyfacts import cc
+    outs = method_outcomes(repo, READER_REL, 'Reader', 'get_word')
+    def reads(o: Any) -> List[str]:
+        return [e.split(' := ', 1)[1] for e in o.effects if ' := self._get_memory_word(' in e]
+    LAST_EQ = cc('word_address == (1 << self.memory_width) - 1')
+    LAST_NE = cc('word_address != (1 << self.memory_width) - 1')
+    aligned = [o for o in outs if o.conds == [cc('bit_offset == 0')]]
+    ok_fast = len(aligned) == 1 and aligned[0].result == ('return', 'self._get_memory_word(word_address)') and not reads(aligned[0])
+    rep.check(ok_fast, 'C01.UNALIGNED', 'python:aligned-first', 'aligned words return before the two-word path' if ok_fast else
+              f'paths: {[(o.conds, o.result) for o in outs]}', site_p)
+    faults = [o for o in outs if o.result[0] == 'raise']
+    raise_args = [[norm(a) for a in r.exc.args] for r in ast.walk(gw) if isinstance(r, ast.Raise) and isinstance(r.exc, ast.Call)
+                  and dotted(r.exc.func) == 'FlipJumpRuntimeMemoryException']
+    ok_last = len(faults) == 1 and faults[0].result == ('raise', 'FlipJumpRuntimeMemoryException') and sorted(faults[0].conds) == sorted([cc('bit_offset != 0'), LAST_EQ]) \
+        and not reads(faults[0]) and len(raise_args) == 1 and len(raise_args[0]) == 2 and raise_args[0][1] == 'bit_address'
     rep.check(ok_last, 'C01.UNALIGNED', 'python:last-word-fault',
-              'an unaligned read at the last word raises the memory exception with the bit address', site_p)
+              'an unaligned read at the last word raises the memory exception with the bit address' if ok_last else
+              f'raising paths {[(o.conds, o.result) for o in faults]}; raise arguments {raise_args}', site_p)
+    two = [o for o in outs if o.result[0] == 'return' and sorted(o.conds) == sorted([cc('bit_offset != 0'), LAST_NE])]
     c_if = [n for n in cbody.get('inner', []) if n.get('kind') == 'IfStmt']
-    ok_cfast = bool(c_if) and lx.canon(c_ir(c_if[0]['inner'][0], cu.src_of), cenv) in ('(bit_offset == 0)',) \
+    def bform(n: Dict[str, Any]) -> Any:
+        return lx.bool_form(lx.ir_subst(c_ir(n, cu.src_of), c_alias))
+    ok_cfast = bool(c_if) and lx.bf_equiv(bform(c_if[0]['inner'][0]), ('not', ('atom', 'bit_offset'))) \
         and any(callee(c) == 'mem_read_word' for c in walk(c_if[0]['inner'][1]) if c.get('kind') == 'CallExpr')
     rep.check(ok_cfast, 'C01.UNALIGNED', 'C:aligned-first', 'aligned words go to mem_read_word first', site_c)
     ok_clast = False
     if len(c_if) >= 2:
-        cond = lx.canon(c_ir(c_if[1]['inner'][0], cu.src_of), cenv)
+        cond = bform(c_if[1]['inner'][0])
         assigns = {cu.src_of(n['inner'][0]): cu.src_of(n['inner'][1]) for n in walk(c_if[1]['inner'][1]) if is_assign(n)}
-        ok_clast = cond == '(word_address == (1)<<(w) - 1)' and assigns.get('m->error_bit_address') == 'bit_address' \
+        ok_clast = cond in (('atom', 'm.word_mask == word_address'),) and assigns.get('m->error_bit_address') == 'bit_address' \
             and assigns.get('m->mem_error') == '1'
     rep.check(ok_clast, 'C01.UNALIGNED', 'C:last-word-fault',
               'the last-word case sets mem_error with the bit address', site_c)
-    # combine expression
-    p_ret = [s for s in stmts if isinstance(s, ast.Return)][-1]
-    p_comb = lx.canon(py_ir(p_ret.value), penv)
-    c_comb = None
+    # combine expression: both sides folded on a grid of (w, bit offset, low word, high word)
+    c_comb_ir = None
     for n in walk(cbody):
         if is_assign(n) and cu.src_of(n['inner'][0]) == '*out':
-            c_comb = lx.canon(c_ir(n['inner'][1], cu.src_of), cenv)
-    rep.check(p_comb == c_comb, 'C01.UNALIGNED', 'combine', f'python {p_comb} ; C {c_comb}', site_c, expected='equal')
+            c_comb_ir = c_ir(n['inner'][1], cu.src_of)
+    comb_bad: List[str] = []
+    p_txt = None
+    # the C locals that receive the low / high word: the out-arguments of the reads at word_address and word_address + 1
+    c_lo = c_hi = '?'
+    for c in [x for x in walk(cbody) if x.get('kind') == 'CallExpr' and callee(x) == 'mem_read_word']:
+        a = call_args(c)
+        if len(a) == 3 and strip(a[2]).get('kind') == 'UnaryOperator' and strip(a[2]).get('opcode') == '&':
+            tgt = cu.src_of(strip(a[2])['inner'][0])
+            addr = lx.show(c_ir(a[1], cu.src_of))
+            if addr == 'word_address':
+                c_lo = tgt
+            elif addr in ('(word_address+1)', '(1+word_address)'):
+                c_hi = tgt
+    if len(two) == 1 and c_comb_ir is not None:
+        bound = dict(e.split(' := ', 1) for e in two[0].effects if ' := ' in e)
+        lo_sym = [k for k, v in bound.items() if v == 'self._get_memory_word(word_address)']
+        hi_sym = [k for k, v in bound.items() if v in ('self._get_memory_word(1 + word_address)', 'self._get_memory_word(word_address + 1)')]
+        p_txt = two[0].result[1]
+        if len(lo_sym) == 1 and len(hi_sym) == 1 and p_txt:
+            p_ir = py_ir(ast.parse(p_txt, mode='eval').body)
+            for wv in (8, 16, 64):
+                for bo in (1, 3, wv - 1):
+                    for lo, hi in ((0, 0), ((1 << wv) - 1, 0), (0, (1 << wv) - 1), (0xA5A5A5A5A5A5A5A5 & ((1 << wv) - 1), 0x3C3C3C3C3C3C3C3C & ((1 << wv) - 1))):
+                        try:
+                            pv = lx.eval_ir(p_ir, {lo_sym[0]: lo, hi_sym[0]: hi, 'bit_offset': bo, 'self.memory_width': wv})
+                            cv = lx.eval_ir(lx.ir_subst(c_comb_ir, c_alias), {c_lo: lo, c_hi: hi, 'bit_offset': bo, 'm.w': wv, 'm.word_mask': (1 << wv) - 1})
+                        except lx.Unrecognised as ex:
+                            comb_bad.append(str(ex))
+                            break
+                        if pv != cv or pv != (((lo >> bo) | (hi << (wv - bo))) & ((1 << wv) - 1)):
+                            comb_bad.append(f'w={wv} offset={bo} low={lo:#x} high={hi:#x}: python {pv:#x}, C {cv:#x}')
+        else:
+            comb_bad.append(f'the two reads (word, word + 1) were not found: {bound}')
+    else:
+        comb_bad.append(f'two-word path found {len(two)} time(s); C combine {"found" if c_comb_ir is not None else "missing"}')
+    rep.check(not comb_bad, 'C01.UNALIGNED', 'combine', comb_bad[0] if comb_bad else f'python `{p_txt}` and the C expression agree on 36 grid cases',
+              site_c, expected='((low >> offset) | (high << (w - offset))) & mask on both sides')
     # ordinary garbage fault address: word << L
     gm = repo.func(READER_REL, 'Reader._get_memory_word')
     p_fault = None
@@ -899,10 +971,12 @@ def rule_ffi(rep: Report, repo: Repo, cu: CUnit) -> None:
     bv = None
     for c in [x for x in walk(cu.body('build_run_result')) if x.get('kind') == 'CallExpr' and 'Py_BuildValue' in callee(x)]:
         a = call_args(c)
-        bv = (_c_strings(a[0])[0], [cu.src_of(x) for x in a[1:]])
+        from ..cfacts import alias_binding as _ab
+        al_ = _ab(cu, 'build_run_result')           # `op_count = (unsigned long long)ops` reads as ops (casts are dropped by c_ir)
+        bv = (_c_strings(a[0])[0], [lx.show(lx.ir_subst(c_ir(x, cu.src_of), al_)) for x in a[1:]])
         break
     ok = names is not None and bv is not None and len(names) == 5 and bv[0] == 'iKNNd' \
-        and [r.split(')')[-1].strip() for r in bv[1]] == ['cause', 'ops', 'error_address', 'last_ops_list', 'paused_seconds'] \
+        and bv[1] == ['cause', 'ops', 'error_address', 'last_ops_list', 'paused_seconds'] \
         and names == ['cause', 'op_count', 'error_bit_address', 'native_last_ops', 'paused_seconds']
     rep.check(ok, 'C01.FFI', 'run-result-tuple', f'python {names} ; C {bv}', site,
               expected='(cause, op count, error address, last ops, paused seconds) in this order on both sides')
@@ -969,6 +1043,20 @@ def rule_per_op_state(rep: Report, all_loops: List[Any]) -> None:
         head = loop.head()
         R = loop.roles
         carried = {R['ip'], R.get('ops', 'ops'), 'ring_writes', 'inner_left', 'cause', 'breakpoint_handler'}
+        if is_c:
+            # the loop-carried locals found by what they are, whatever they are called: the signal-poll budget (assigned
+            # SIGNAL_CHECK_MASK + 1), the ring write counter (indexes the last-ops ring modulo its length), the returned cause
+            body_ = loop.cu.body(loop.fname)
+            for n_ in walk(body_):
+                if is_assign(n_) and loop.cu.src_of(n_['inner'][1]).replace(' ', '') == 'SIGNAL_CHECK_MASK+1':
+                    carried.add(loop.cu.src_of(n_['inner'][0]))
+                if is_assign(n_):
+                    l0_ = strip(n_['inner'][0])
+                    if l0_.get('kind') == 'ArraySubscriptExpr' and loop.cu.src_of(l0_['inner'][0]) == 'last_ops_ring':
+                        carried |= {x['referencedDecl']['name'] for x in walk(l0_['inner'][1]) if x.get('kind') == 'DeclRefExpr'
+                                    and x['referencedDecl'].get('kind') == 'VarDecl'}
+                if n_.get('kind') == 'ReturnStmt' and n_.get('inner') and strip(n_['inner'][0]).get('kind') == 'DeclRefExpr':
+                    carried.add(strip(n_['inner'][0])['referencedDecl']['name'])
         assigned_of = c_assigned if is_c else py_assigned
         mentions_of = c_mentions if is_c else py_mentions
         in_loop = g.reachable(head) & _reaching(g, head)
@@ -996,6 +1084,8 @@ def rule_per_op_state(rep: Report, all_loops: List[Any]) -> None:
                 if v in have:
                     continue
                 if _justified_by_marker(loop, g, node, v, IN, PC, assigned_of):
+                    continue
+                if _justified_by_repeated_test(loop, g, head, node, v, PC, assigned_of, mentions_of, gen_kill, in_loop, IN):
                     continue
                 bad.append(f'{v} read at {_site(loop, nid)} ({_txt(loop, nid)[:50]}) may hold the previous op\'s value')
         nm = _name(loop)
@@ -1061,6 +1151,48 @@ def _reads(loop: Any, node: Any) -> Set[str]:
             if isinstance(n, ast.Name) and isinstance(n.ctx, ast.Load):
                 out2.add(n.id)
     return out2
+
+
+def _justified_by_repeated_test(loop: Any, g: Any, head: int, node: Any, v: str, PC: Dict[int, Any], assigned_of: Any, mentions_of: Any,
+                                gen_kill: Any, in_loop: Set[int], IN: Dict[int, Any]) -> bool:
+    """path-sensitive refinement: the read sits under a test that the iteration has already taken once (`if bit_offset: .. else:
+    word_address = ..` and later `else: use word_address`). A test whose variables are assigned at most once per iteration
+    evaluates the same way each time it is spelled, so every branch edge that contradicts the facts known at the read is
+    pruned and the must-assigned dataflow is repeated on the pruned graph."""
+    from ..pycfg import must_dataflow
+    facts = PC.get(node.id) or frozenset()
+    if not facts:
+        return False
+    assign_count: Dict[str, int] = {}
+    for nid in in_loop:
+        for x in assigned_of(g.nodes[nid]):
+            assign_count[x] = assign_count.get(x, 0) + 1
+    def stable(nid: int) -> bool:
+        # every variable of the test that the loop assigns is assigned once per iteration, and already assigned when the test runs
+        nd = g.nodes[nid]
+        have_ = IN.get(nid) or frozenset()
+        return all(assign_count.get(x, 0) == 0 or (assign_count.get(x, 0) == 1 and x in have_) for x in mentions_of(nd))
+    known: Dict[str, str] = {}
+    for cid, pol in facts:
+        if stable(cid):
+            known[_txt(loop, cid)] = pol
+    if not known:
+        return False
+
+    class Pruned:
+        nodes = g.nodes
+        succ: Dict[int, List[Tuple[int, Any]]] = {}
+    pg = Pruned()
+    pg.succ = {}
+    for nid, outs in g.succ.items():
+        nd = g.nodes[nid]
+        if nd.kind == 'cond' and _txt(loop, nid) in known and stable(nid):
+            pg.succ[nid] = [(m, lab) for m, lab in outs if lab not in ('T', 'F') or lab == known[_txt(loop, nid)]]
+        else:
+            pg.succ[nid] = list(outs)
+    IN2 = must_dataflow(pg, head, gen_kill)       # type: ignore[arg-type]
+    have = IN2.get(node.id)
+    return have is not None and v in have
 
 
 def _justified_by_marker(loop: Any, g: Any, node: Any, v: str, IN: Dict[int, Any], PC: Dict[int, Any], assigned_of: Any) -> bool:
